@@ -196,11 +196,12 @@ impl<P: MalachiteCtxParams> Ctx for MalachiteCtx<P> {
         }
         let seed = Self::get_seed();
 
-        let one: Natural = Natural::from(1u8);
+        // the range is inclusive: the plaintext space is 0..=q-2
+        let two: Natural = Natural::from(2u8);
         let num = uniform_random_natural_inclusive_range(
             seed,
             Natural::from(0u8),
-            &self.params.exp_modulus().0 - one,
+            &self.params.exp_modulus().0 - two,
         )
         .next()
         .expect("impossible: uniform_random_natural_inclusive_range implementation never returns None");
@@ -220,10 +221,12 @@ impl<P: MalachiteCtxParams> Ctx for MalachiteCtx<P> {
         }
         let seed = Self::get_seed();
 
+        // the range is inclusive: exponents are 0..=q-1
+        let one: Natural = Natural::from(1u8);
         let num = uniform_random_natural_inclusive_range(
             seed,
             Natural::from(0u8),
-            self.params.exp_modulus().0.clone(),
+            &self.params.exp_modulus().0 - one,
         )
         .next()
         .expect("impossible: uniform_random_natural_inclusive_range implementation never returns None");
